@@ -247,6 +247,11 @@ def run(ctx):
         vecs, uni, devs = enumerate_cases(ctx, fams)
         rep = replay(ctx, vecs, uni, "replay", strategies="iface,any,refl" if ctx.prop in ("C10", "C01") else "iface,any")
         absorb(ctx, rep, "replay", aspects, devs, ctx.prop)
+        if ctx.prop in ("C10", "C01"):
+            # U-top: the query root type is not called Query and an ordinary object type is (what is a root is decided by the schema)
+            tvecs, tuni, _ = enumerate_cases(ctx, ["topmeta", "topplain"], module="MCExecTop")
+            trep = replay(ctx, tvecs, tuni, "replay-utop", strategies="iface,any")
+            absorb(ctx, trep, "replay-utop", aspects, devs, ctx.prop)
         record_and_judge(ctx, uni, "record", aspects, devs, ctx.prop, 1500 if ctx.tier == "quick" else 12000,
                          universes=12 if ctx.tier == "quick" else 60)
         ctx.exhaustive = True
